@@ -49,7 +49,14 @@ Record parse_case := mkParseCase {
 }.
 Definition check_parse (p : parse_case) : list N :=
   match parse_pkcs8 (fun _ _ => pc_pub p) (pc_order p) (pc_bytes p), pc_result p with
-  | Some a, Some b => if privkey_eqb a b then [] else [3]
+  | Some a, Some b =>
+    if privkey_eqb a b then []
+    else match a, b with
+         | KEc c d _, KEc c' d' pub' =>
+           (* same curve and scalar, but the public point gopki hands out is not the one the harness computed from the scalar *)
+           if (N.eqb d d') && negb (bytes_eqb pub' (pc_pub p)) then [6] else [3]
+         | _, _ => [3]
+         end
   | None, None => []
   | Some _, None => [4]    (* the model accepts, gopki rejects *)
   | None, Some _ => [5]     (* gopki accepts what the model (and the property) rejects *)
